@@ -67,6 +67,7 @@ fn main() {
             0
         }
         "try" if args.len() >= 3 => exec::try_exprs(&args[2..]),
+        "solo" => exec::solo_child(),
         "genscan" if args.len() >= 4 => exec::genscan(args[2].parse().unwrap_or(0), args[3].parse().unwrap_or(1000)),
         "selftest" => supervisor::selftest(args.get(2).and_then(|s| s.parse().ok()).unwrap_or(200)),
         _ => {
